@@ -1,6 +1,56 @@
 package main
 
-// tryReplay turns a solver model into a concrete call of the real function (see replay_gen.go).
+import (
+	"context"
+	"encoding/json"
+	"fmt"
+	"os"
+	"os/exec"
+	"path/filepath"
+	"strings"
+	"time"
+)
+
+type scenario struct {
+	Match  string `json:"match"`
+	PkgDir string `json:"pkgdir"`
+	File   string `json:"file"`
+	Run    string `json:"run"`
+	Marker string `json:"marker"`
+}
+
+// tryReplay: a purpose-written scenario registered for the obligation, else the generic model replay.
 func tryReplay(eng *Engine, res *UnitResult, o *Obligation) (bool, string) {
+	var scs []scenario
+	if data, err := os.ReadFile(filepath.Join(eng.verifDir, "replay", "scenarios", "index.json")); err == nil {
+		json.Unmarshal(data, &scs)
+	}
+	for _, sc := range scs {
+		if strings.Contains(o.Name, sc.Match) {
+			return runScenario(eng, sc)
+		}
+	}
 	return replayObligation(eng, res, o)
+}
+
+func runScenario(eng *Engine, sc scenario) (bool, string) {
+	src := filepath.Join(eng.verifDir, "replay", "scenarios", sc.File)
+	pkgDir := filepath.Join(repoDir, sc.PkgDir)
+	target := filepath.Join(pkgDir, "zz_verif_scenario_test.go")
+	dir := filepath.Join(eng.verifDir, "out", "replaytmp")
+	os.MkdirAll(dir, 0o755)
+	ov, _ := json.Marshal(map[string]any{"Replace": map[string]string{target: src}})
+	ovFile := filepath.Join(dir, "scenario_"+sanitizeFile(sc.Run)+".overlay.json")
+	os.WriteFile(ovFile, ov, 0o644)
+	ctx, cancel := context.WithTimeout(context.Background(), 600*time.Second)
+	defer cancel()
+	cmd := exec.CommandContext(ctx, "bash", "-c", fmt.Sprintf("cd %q && go test -overlay %q -vet=off -count=1 -timeout 300s -v -run '^%s$' .", pkgDir, ovFile, sc.Run))
+	cmd.Env = append(os.Environ(), "GOFLAGS=-mod=mod", "GOPROXY=off", "GOSUMDB=off", "GOTOOLCHAIN=local")
+	out, _ := cmd.CombinedOutput()
+	text := string(out)
+	report := fmt.Sprintf("scenario %s (%s)\noutput:\n%s", sc.File, sc.Run, firstLines(text, 30))
+	if strings.Contains(text, sc.Marker) {
+		return true, "registered replay scenario reproduces the failure on the real code\n" + report
+	}
+	return false, "registered replay scenario did not reproduce the failure\n" + report
 }
